@@ -71,6 +71,7 @@ class ContractMixin:
             if v.kind.target.elem is None:
                 v.kind.target.elem = kind.target.elem
                 v.kind.target.name = kind.target.name
+                self.set_tag(st, v)
             elif kind.target.elem is not None and v.kind.target.elem != kind.target.elem:
                 if not (isinstance(v.kind.target.elem, Ref) and isinstance(kind.target.elem, Ref)):
                     raise Unsupported(f"argument {what}: {v.kind} where {kind} expected")
@@ -81,6 +82,7 @@ class ContractMixin:
             if v.kind.target.k is None:
                 v.kind.target.k, v.kind.target.v = kind.target.k, kind.target.v
                 self._dict_clear_dom(st, v)
+                self.set_tag(st, v)
             return v
         if isinstance(kind, Tup) and isinstance(v.kind, Tup):
             return v
@@ -93,7 +95,7 @@ class ContractMixin:
     # ------------------------------------------------------------------ contract application
     def call_contract_or_inline(self, c, args, kw, st, node):
         if c.inline and c.file is not None:
-            fd = self.find_def(c.file, c.qualname)
+            fd = self.find_def(c.file, c.srcname)
             yield from self.inline_call(fd, c.file, args, kw, st, node, qual=c.qualname)
         else:
             yield from self.apply_contract(c, args, kw, st, node)
@@ -113,7 +115,7 @@ class ContractMixin:
             pk = inst(c.params[n])
             if pk in ("any", "fn"):
                 continue
-            env[n] = self.coerce_arg(env[n], parse_kind(pk.rstrip("?"), self.reg.opaque), st, f"{c.qualname}.{n}")
+            env[n] = self.coerce_arg(env[n], parse_kind(pk, self.reg.opaque), st, f"{c.qualname}.{n}")
         self.used_contracts.add(c.qualname)
         pre = st.fork()
         # preconditions
@@ -129,6 +131,11 @@ class ContractMixin:
             if not ghost:
                 self.check_frame(st, region, addr, node)
             self.havoc_region(st, region, addr)
+            if region == "dict":
+                # a havoced dict still satisfies its representation invariant
+                dv = self.spec_eval(entry[:-2] if entry.endswith("[]") else entry, env, pre)
+                if dv.kind.target.k is not None:
+                    st.assume(self.dict_wf(st, dv))
         if c.allocates:
             t0 = st.top
             t1 = fresh("top", I)
@@ -141,15 +148,14 @@ class ContractMixin:
             s2.trace.append(f"raise-{exc}-{c.qualname}")
             self.raise_exc(exc, s2, node, origin=c.qualname)
         # result
-        rk = parse_kind(inst(c.returns).rstrip("?"), self.reg.opaque) if c.returns and c.returns not in ("any",) else NONE
+        rk = parse_kind(inst(c.returns), self.reg.opaque) if c.returns and c.returns not in ("any",) else NONE
         res = self.fresh_value("r_" + c.fname, rk) if rk != NONE else V(NONE, None)
         if self.comp_oracle_stack and rk != NONE:
             self._collect_consts(res, self.comp_oracle_stack[-1])
         if isinstance(rk, Ref):
+            st.assume(self.ref_wf(st, res))
             if c.fresh_result:
-                st.assume(z3.And(res.term >= pre.top, res.term < st.top, res.term >= 1))
-            else:
-                st.assume(z3.And(res.term >= 0, res.term < st.top))
+                st.assume(res.term >= pre.top)
         env2 = dict(env)
         env2["result"] = res
         for wname, (_gv, wkind) in c.witnesses.items():
@@ -169,6 +175,9 @@ class ContractMixin:
         # oracle log
         if c.qualname.endswith(".randint") or c.qualname.endswith(".random_float"):
             st.draws.append((c.qualname, env.get("self"), res))
+        elif c.qualname.endswith(".random_bool") and res.kind == BOOL:
+            # random_bool is choice([True, False]) over randint(0, 1): True <-> draw 0
+            st.draws.append((c.qualname, env.get("self"), V(INT, z3.If(res.term, z3.IntVal(0), z3.IntVal(1)))))
         st.calls.append((c.qualname, env, res))
         yield res, st
 
@@ -207,6 +216,13 @@ class ContractMixin:
         """modifies entry -> (region, address term).  Forms: 'x' (list or dict x), 'x.f' (field f of object x),
         'x.*' (all fields of x), 'e.f' with e any spec expression."""
         entry = entry.strip()
+        if entry.endswith("[]"):
+            v = self.spec_eval(entry[:-2], env, st)
+            if is_list(v.kind):
+                return "list", v.term
+            if is_dict(v.kind):
+                return "dict", v.term
+            raise Unsupported(f"modifies entry {entry}: not a container")
         if entry.endswith(".*"):
             base = self.spec_eval(entry[:-2], env, st)
             return "field:*", base.term
@@ -249,7 +265,7 @@ class ContractMixin:
             if ci is None or ci.file is None:
                 continue
             mod = self.load_module(ci.file)
-            fd = mod["defs"].get(f"{c}.{name}")
+            fd = mod["defs"].get(f"{ci.srcname}.{name}")
             if fd is not None:
                 return ci.file, fd
         return None
@@ -396,7 +412,7 @@ class ContractMixin:
                 return
             ci = self.reg.classes.get(base)
             if ci is not None and ci.file is not None:
-                fd = self.load_module(ci.file)["defs"].get(f"{base}.{mname}")
+                fd = self.load_module(ci.file)["defs"].get(f"{ci.srcname}.{mname}")
                 if fd is not None:
                     yield from self.inline_call(fd, ci.file, [selfv] + args, kw, st, node, qual=f"{base}.{mname}")
                     return
